@@ -1,0 +1,36 @@
+//go:build verif
+
+// Package verifbridge re-exports cmd/benchstat's internal table packages for
+// the verification harness. It is only built with -tags verif.
+package verifbridge
+
+import (
+	"golang.org/x/perf/benchproc"
+	"golang.org/x/perf/cmd/benchstat/internal/benchtab"
+	"golang.org/x/perf/cmd/benchstat/internal/texttab"
+)
+
+type (
+	TextTable  = texttab.Table
+	CellOption = texttab.CellOption
+
+	Builder      = benchtab.Builder
+	Table        = benchtab.Table
+	TableCell    = benchtab.TableCell
+	TableKey     = benchtab.TableKey
+	TableOpts    = benchtab.TableOpts
+	TableSummary = benchtab.TableSummary
+	Tables       = benchtab.Tables
+)
+
+var (
+	Left   = texttab.Left
+	Right  = texttab.Right
+	Center = texttab.Center
+)
+
+func LeftMargin(x string) CellOption { return texttab.LeftMargin(x) }
+
+func NewBuilder(tableBy, rowBy, colBy, residue *benchproc.Projection) *Builder {
+	return benchtab.NewBuilder(tableBy, rowBy, colBy, residue)
+}
